@@ -108,6 +108,26 @@ pub fn critical(expr: &OpeningHoursExpression, ctx: &Ctx) -> Vec<i64> {
         years.extend([2096, 2098, 2100, 2104, 2400]);
     }
 
+    // a date attached to a year is also looked at from far away: the day-jump hints only scan a window of years around the
+    // evaluated day (R21: eleven years), so a standing point twelve to twenty years before an anchored year is a boundary value
+    let mut far: Vec<i64> = Vec::new();
+    for r in &expr.rules {
+        for md in &r.day_selector.monthday {
+            if let MonthdayRange::Date { start, end } = md {
+                for (d, _) in [start, end] {
+                    let y = match d {
+                        Date::Fixed { year, .. } | Date::Easter { year } => *year,
+                    };
+                    if let Some(y) = y {
+                        for back in [12, 20] {
+                            far.extend(ymd(i32::from(y) - back, 6, 15));
+                        }
+                    }
+                }
+            }
+        }
+    }
+
     let years: Vec<i32> = years.into_iter().flat_map(|y| [y - 1, y, y + 1]).filter(|y| (1899..=10_000).contains(y)).collect();
 
     for &y in &years {
@@ -179,6 +199,7 @@ pub fn critical(expr: &OpeningHoursExpression, ctx: &Ctx) -> Vec<i64> {
         out.extend([h - 1, *h, h + 1]);
     }
 
+    out.extend(far);
     out.into_iter().filter(|n| (DAY_MIN - 2..=DAY_MAX + 2).contains(n)).collect()
 }
 
